@@ -252,6 +252,155 @@ fn table_clauses(rng: &mut Rng, c: &mut Counter) {
     c.ok("into_iter_from(iter covering the table): yields exactly elems", got == elems(&v0));
 }
 
+
+/// every element of the table is found under the hash `h` computes for it (the observable content of `hashed_by(tv, h)`:
+/// the stored hash is a ghost of the model, what the real table exposes is that a lookup under that hash succeeds)
+fn all_found(t: &RawTable<u32>) -> bool {
+    view(t).items.values().all(|v| t.find(h(v), |x| x == v).is_some())
+}
+
+/// clauses of the model that table_clauses does not reach
+fn more_table_clauses(rng: &mut Rng, c: &mut Counter) {
+    let d: RawTable<u32> = Default::default();
+    c.ok("Default::default: empty, growth_left == 0, buckets == 1", d.len() == 0 && d.capacity() == 0 && d.buckets() == 1);
+    let mut t = random_table(rng);
+    c.ok("is_empty == (|items| == 0)", t.is_empty() == view(&t).items.is_empty());
+    // growing insert on a full table: everything is rehashed with `hasher`
+    while t.capacity() > t.len() {
+        let v = 3000 + rng.below(500) as u32;
+        unsafe { t.insert_no_grow(h(&v), v) };
+    }
+    let v0 = view(&t);
+    // growth_left == 0: refused unless the probe ends on a tombstone (then it is the Ok case, checked below as well)
+    match t.try_insert_no_grow(h(&77), 77) {
+        Err(v) => c.ok("try_insert_no_grow Err: value handed back, table unchanged", v == 77 && view(&t) == v0),
+        Ok(b) => {
+            let idx = unsafe { t.bucket_index(&b) };
+            let v1 = view(&t);
+            let mut exp = v0.items.clone();
+            exp.insert(idx, 77);
+            c.ok("try_insert_no_grow Ok: fresh bucket, items == old.insert(idx, value), same buckets, growth_left' in [growth_left - 1, growth_left]",
+                 !v0.items.contains_key(&idx) && v1.items == exp && v1.buckets == v0.buckets && v1.growth_left + 1 >= v0.growth_left && v1.growth_left <= v0.growth_left);
+        }
+    }
+    let v0 = view(&t);
+    let val = 5000 + rng.below(50) as u32;
+    let b = t.insert(h(&val), val, h);
+    let idx = unsafe { t.bucket_index(&b) };
+    let v1 = view(&t);
+    c.ok("insert (growing): |items| + 1, value at the returned bucket", v1.items.len() == v0.items.len() + 1 && v1.items.get(&idx) == Some(&val));
+    c.ok("insert (growing): hashed_by(hasher) preserved, new element stored under `hash`", all_found(&t));
+    tv_inv(&v1);
+    // try_insert_no_grow Ok
+    let v0 = view(&t);
+    if v0.growth_left >= 1 {
+        let val = 6000 + rng.below(50) as u32;
+        let b = t.try_insert_no_grow(h(&val), val).ok().expect("room but refused");
+        let idx = unsafe { t.bucket_index(&b) };
+        let v1 = view(&t);
+        let mut exp = v0.items.clone();
+        exp.insert(idx, val);
+        c.ok("try_insert_no_grow Ok: fresh bucket, items == old.insert(idx, value), same buckets, growth_left' in [growth_left - 1, growth_left]",
+             !v0.items.contains_key(&idx) && v1.items == exp && v1.buckets == v0.buckets && v1.growth_left + 1 >= v0.growth_left && v1.growth_left <= v0.growth_left);
+        c.ok("try_insert_no_grow Ok: stored under `hash`", t.find(h(&val), |x| *x == val).is_some());
+    }
+    // insert_entry
+    let v0 = view(&t);
+    let val = 7000 + rng.below(50) as u32;
+    let r = *t.insert_entry(h(&val), val, h);
+    let v1 = view(&t);
+    let mut e0 = elems(&v0);
+    e0.push(val);
+    e0.sort();
+    c.ok("insert_entry: elems == old + value, reference designates the value", elems(&v1) == e0 && r == val);
+    c.ok("insert_entry: hashed_by(hasher) preserved", all_found(&t));
+    tv_inv(&v1);
+    // remove_entry
+    let v0 = view(&t);
+    let probe = if rng.below(2) == 0 && !v0.items.is_empty() { *v0.items.values().nth(rng.below(v0.items.len() as u64) as usize).unwrap() } else { rng.below(200) as u32 };
+    let present = v0.items.values().any(|x| *x == probe);
+    match t.remove_entry(h(&probe), |x| *x == probe) {
+        Some(v) => {
+            let v1 = view(&t);
+            let mut e0 = elems(&v0);
+            let pos = e0.iter().position(|x| *x == v).expect("returned an element that was not stored");
+            e0.remove(pos);
+            c.ok("remove_entry Some: an element eq accepted, elems == old - v, same buckets", v == probe && elems(&v1) == e0 && v1.buckets == v0.buckets);
+            c.ok("remove_entry Some: nothing else moved (tv_sub)", v1.items.iter().all(|(i, x)| v0.items.get(i) == Some(x)));
+            c.ok("remove_entry Some: the others keep their stored hash", all_found(&t));
+            tv_inv(&v1);
+        }
+        None => c.ok("remove_entry None: table unchanged, eq false on every element stored under hash", !present && view(&t) == v0),
+    }
+    // get_mut
+    let v0 = view(&t);
+    let probe = rng.below(200) as u32;
+    let found = t.get_mut(h(&probe), |x| *x == probe).is_some();
+    c.ok("get_mut: None <=> nothing equal stored; table unchanged", found == v0.items.values().any(|x| *x == probe) && view(&t) == v0);
+    // erase / remove keep the stored hashes of the others
+    if !v0.items.is_empty() {
+        let idx = *v0.items.keys().nth(rng.below(v0.items.len() as u64) as usize).unwrap();
+        unsafe { t.erase(t.bucket(idx)) };
+        c.ok("remove/erase: the others keep their stored hash", all_found(&t));
+    }
+    // shrink_to / try_reserve keep hashed_by
+    t.shrink_to(rng.below(40) as usize, h);
+    c.ok("shrink_to: hashed_by(hasher) preserved", all_found(&t));
+    let v0 = view(&t);
+    let add = v0.growth_left + 1 + rng.below(30) as usize;
+    let r = t.try_reserve(add, h);
+    let v1 = view(&t);
+    c.ok("try_reserve Ok: growth_left >= additional, elems preserved, hashed_by preserved", r.is_ok() && v1.growth_left >= add && elems(&v1) == elems(&v0) && all_found(&t));
+    tv_inv(&v1);
+    // clone keeps the stored hashes
+    let cl = t.clone();
+    c.ok("clone: stored hashes copied (every clone found under its hash)", all_found(&cl));
+    // owning iterators, step by step
+    let t = random_table(rng);
+    let mut left = elems(&view(&t));
+    let mut it = t.into_iter();
+    loop {
+        c.ok("RawIntoIter::size_hint/len exact at every step", it.size_hint() == (left.len(), Some(left.len())) && it.len() == left.len());
+        c.ok("RawIntoIter::iter covers what is left", it.iter().len() == left.len());
+        match it.next() {
+            Some(v) => {
+                let pos = left.iter().position(|x| *x == v);
+                c.ok("RawIntoIter::next Some: an element still owned, removed from the rest", pos.is_some());
+                left.remove(pos.unwrap());
+            }
+            None => {
+                c.ok("RawIntoIter::next None: nothing left, fused", left.is_empty() && it.next().is_none());
+                break;
+            }
+        }
+    }
+    let mut t = random_table(rng);
+    let mut left = elems(&view(&t));
+    {
+        let mut dr = t.drain();
+        loop {
+            c.ok("RawDrain::size_hint/len exact at every step", dr.size_hint() == (left.len(), Some(left.len())) && dr.len() == left.len());
+            c.ok("RawDrain::iter covers what is left", dr.iter().len() == left.len());
+            match dr.next() {
+                Some(v) => {
+                    let pos = left.iter().position(|x| *x == v);
+                    c.ok("RawDrain::next Some: an element still owned, removed from the rest", pos.is_some());
+                    left.remove(pos.unwrap());
+                }
+                None => {
+                    c.ok("RawDrain::next None: nothing left, fused", left.is_empty() && dr.next().is_none());
+                    break;
+                }
+            }
+        }
+    }
+    c.ok("drain: table empty and usable afterwards", t.len() == 0 && { t.insert(h(&1), 1, h); t.len() == 1 });
+    // RawIter::len
+    let t = random_table(rng);
+    let it = unsafe { t.iter() };
+    c.ok("RawIter::len == |remaining| (ExactSizeIterator)", it.len() == t.len());
+}
+
 /// the cached-iterator protocol as griddle uses it, on every fill pattern of an 8- and a 16-bucket table
 fn iterator_protocol(rng: &mut Rng, c: &mut Counter, buckets_cap: usize) {
     let mut t: RawTable<u32> = RawTable::with_capacity(buckets_cap);
@@ -365,6 +514,7 @@ fn main() {
     let mut c = Counter { checks: 0, clauses: BTreeMap::new() };
     for _ in 0..rounds {
         table_clauses(&mut rng, &mut c);
+        more_table_clauses(&mut rng, &mut c);
         iterator_protocol(&mut rng, &mut c, 7);
         iterator_protocol(&mut rng, &mut c, 14);
         iterator_protocol(&mut rng, &mut c, 28);
